@@ -180,6 +180,10 @@ def _endwhile(ctx=None):
 def _breakif(cond,ctx=None):
     getcontext(ctx).stack[-1]._while(1-cond)
 
+class EmptyLoop():
+    """ Stands in for the loop context of a loop that runs zero times, so that _endfor has something to close """
+    def end(self): pass
+
 class ObliviousIterator():
     def __init__(self, start, stop, max, ctx, checkstopmax):
         self.start = start
@@ -192,6 +196,10 @@ class ObliviousIterator():
     def __next__(self):
         if self.ix is None:
             self.ix = self.start
+            if isinstance(self.stop,int) and isinstance(self.start,int) and self.start>=self.stop:
+                # public bound that is reached at once (e.g. _range(0)): like range(), no iteration
+                self.ctx.stack.append(EmptyLoop())
+                raise StopIteration
             self.ctx.stack.append(WhileContext(self.ix!=self.stop,self.ctx))
             return self.ix
         else:
